@@ -38,6 +38,8 @@ type pcCase struct {
 	Build      []pcStep `json:"build"`
 	EndWithSet bool     `json:"end_with_set"`
 	Big        int      `json:"big,omitempty"` // number of 1 MiB values appended (multi-block streams)
+	HotKeep    int      `json:"hot_keep,omitempty"` // a cache that shrank and is hot: HotKeep+HotDrop keys stored, HotDrop deleted again,
+	HotDrop    int      `json:"hot_drop,omitempty"` // the rest read 20 times each (high saved frequencies under a sketch sized for more entries)
 	TargetSize int      `json:"target_size"`
 	Elapsed    int64    `json:"elapsed"` // virtual ns between save and load
 	After      []pcStep `json:"after,omitempty"`
@@ -224,6 +226,20 @@ func pcBuild[K comparable, V any](c pcCase, cd pcCodec[K, V], x *verifkit.Ctx) (
 	}
 	for _, st := range c.Build {
 		apply(st)
+	}
+	if c.HotKeep > 0 {
+		for i := 0; i < c.HotKeep+c.HotDrop; i++ {
+			seq++
+			y.set(cd.key(2000+i), cd.val(seq, 0), 1, 0)
+		}
+		for i := c.HotKeep; i < c.HotKeep+c.HotDrop; i++ {
+			y.del(cd.key(2000 + i))
+		}
+		for rep := 0; rep < 20; rep++ {
+			for i := 0; i < c.HotKeep; i++ {
+				y.get(cd.key(2000+i), 1)
+			}
+		}
 	}
 	y.flushReads()
 	for i := 0; i < c.Big; i++ {
@@ -420,6 +436,7 @@ func execC11[K comparable, V any](c pcCase, cd pcCodec[K, V], x *verifkit.Ctx) (
 	}
 	x.ClassIf(splitMoved, "split-moved")
 	x.ClassIf(mixed, "mixed-costs")
+	x.ClassIf(c.HotKeep > 0, "hot-cache-that-shrank")
 	x.ClassIf(multi, "multi-block")
 	x.ClassIf(smaller, "smaller-target")
 	x.ClassIf(target > c.MaxSize, "larger-target")
@@ -525,6 +542,14 @@ func genPersist(forC12 bool) func(t *rapid.T) pcCase {
 			c.Big = rapid.IntRange(9, 14).Draw(t, "big")
 			if c.MaxSize < 8*c.Big {
 				c.MaxSize = 8 * c.Big
+			}
+		}
+		if !forC12 && c.Big == 0 && rapid.IntRange(0, 7).Draw(t, "hotShrunk") == 0 {
+			c.MaxSize = 400
+			c.HotKeep = rapid.IntRange(30, 90).Draw(t, "hotKeep")
+			c.HotDrop = rapid.IntRange(2*c.HotKeep, 3*c.HotKeep).Draw(t, "hotDrop")
+			if len(c.Build) > 20 {
+				c.Build = c.Build[:20]
 			}
 		}
 		tc := rapid.IntRange(0, 5).Draw(t, "targetClass")
